@@ -29,7 +29,7 @@ MAX_M, MAX_T, MAX_P = 4, 3, 4          # the bounded space of the quantifier
 QUICK_M, QUICK_T = 3, 2                # quick tier: exhaustive sub-space
 N_STRIPES = {"quick": 4, "thorough": 32}
 N_RANDOM_SHARDS = {"quick": 12, "thorough": 32}
-RANDOM_PER_SHARD = {"quick": 250, "thorough": 4500}   # quick: 12*250 = 3000 random inputs
+RANDOM_PER_SHARD = {"quick": 1500, "thorough": 12000}   # quick: 12*1500 = 18000 random chains
 
 RULE = (
     "Exhaustive part: every input of the bounded space {1..M members m0..} x {1..T topics t0..} x "
@@ -131,6 +131,11 @@ class Lib:
         self.TopicPartition = TopicPartition
         self._clusters = {}
         self._member_classes = {}
+        # termination monitor on the executor's balancing loops (vf/stickyguard.py)
+        from aiokafka.coordinator.assignors.sticky import sticky_assignor as _sa
+        from vf import stickyguard
+        stickyguard.install(_sa)
+        self.stickyguard = stickyguard
 
     @classmethod
     def get(cls):
@@ -361,11 +366,14 @@ def call_assign(lib, name, label, klass, layout, subs, members_md, witness):
         w.setdefault("subscriptions", jsonable_subs(subs))
         w["assignor"] = label
         mech = f"{name}_assign_raises_{type(e).__name__}"
-        if name == "sticky" and stale_unsubscribed_claims(layout, subs, witness):
+        if isinstance(e, lib.stickyguard.StickyNonTermination):
+            mech = e.mechanism
+            JUDGE.count("sticky_assign_nonterminating")
+        elif name == "sticky" and stale_unsubscribed_claims(layout, subs, witness):
             mech += "_with_unsubscribed_previous_owner"
         JUDGE.violations.append({
             "mechanism": mech,
-            "what": f"{label}: assign() raised {type(e).__name__}: {e}",
+            "what": f"{label}: assign() raised {type(e).__name__}: {str(e)[:1500]}",
             "witness": w})
         JUDGE.last_problems.append(mech)
         return None
@@ -682,6 +690,7 @@ def shards(tier: str, seed: int):
     for s in range(N_RANDOM_SHARDS[tier]):
         out.append({"kind": "random", "shard": s, "count": RANDOM_PER_SHARD[tier], "seed": seed,
                     "timeout_s": 3000})
+    out.append({"kind": "pinned", "seed": seed, "timeout_s": 3000})
     return out
 
 
@@ -701,6 +710,8 @@ def _finish(lib, res, t0):
     res["violations"] = out
     for k, v in JUDGE.counters.items():
         res["counters"][k] = res["counters"].get(k, 0) + v
+    res["counters"]["sticky_executor_runs_monitored"] = lib.stickyguard.STATS["executors"]
+    res["counters"]["sticky_partition_moves_observed"] = lib.stickyguard.STATS["moves"]
     res["counters"]["cpu_ms"] = int((time.time() - t0) * 1000)
     return res
 
@@ -736,12 +747,21 @@ def run_shard(params):
                                        "subscriptions": jsonable_subs(subs)})
         cnt["exhaustive_inputs"] = done
         cnt["exhaustive_stripes_completed"] = 1
+    elif params["kind"] == "pinned":
+        # inputs kept from earlier runs (witnesses of known findings / repaired defects): always re-run
+        import os
+        with open(os.path.join(os.path.dirname(os.path.abspath(__file__)), "c14_pinned.json")) as f:
+            pinned = json.load(f)
+        for ent in pinned:
+            run_case(lib, ent["case"])
+            res["evaluations"] += len(ent["case"]["rounds"])
+            cnt["pinned_cases"] = cnt.get("pinned_cases", 0) + 1
     else:
         rng = random.Random(f"C14/{params['seed']}/{params['shard']}")
         for i in range(params["count"]):
             case = random_case(rng)
             run_case(lib, case)
-            res["evaluations"] += 1
+            res["evaluations"] += len(case["rounds"])   # every judged round is one evaluated input
             cnt["random_inputs"] = cnt.get("random_inputs", 0) + 1
             cnt["random_rounds"] = cnt.get("random_rounds", 0) + len(case["rounds"])
             if case.get("bad_userdata"):
